@@ -426,6 +426,16 @@ fn eliminate_and_check(rep: &mut Report, idx: u64, t: &mut AffTree<2>, descr: &s
         rep.viol(idx, "wf", format!("{step}: tree not well-formed after elimination: {e} | {descr}"));
         return false;
     }
+    for (i, nd) in &after.nodes {
+        match before.nodes.get(i) {
+            None => rep.viol(idx, "wf", format!("{step}: node {i} appeared during elimination | {descr}")),
+            Some(o) => {
+                if o.isleaf != nd.isleaf {
+                    rep.viol(idx, "wf", format!("{step}: node {i} changed its kind (decision <-> terminal) during elimination | {descr}"));
+                }
+            }
+        }
+    }
     let mut tol = 0;
     if let Err(e) = same_function(&|x| before.eval(x), &|x| closed_route_region(&before, x), &after, before.in_dim, true, &mut tol) {
         rep.viol(idx, "function", format!("{step}: elimination changed the function: {e} | {descr}"));
